@@ -112,7 +112,7 @@ def ok_exits(b):
         return set(b.returns())
     out = set()
     for bi, j, s in b.assigns():
-        if s['lhs']['l'] == 0 and s['rv']['k'] == 'agg' and s['rv'].get('variant') == 'Ok':
+        if s['lhs']['l'] in b.ret_locals and s['rv']['k'] == 'agg' and s['rv'].get('variant') == 'Ok':
             out.add(bi)
     return out
 
